@@ -220,7 +220,8 @@ def corpus_net(rng, name):
     ones, a deterministic witness for the open one (known_lrelu16_reshape)"""
     import netgen
 
-    b = make_builder(rng, name, "int16" if name in ("known_fc_int16", "known_lrelu16_relu6", "known_lrelu16_reshape", "known_lrelu16_rounding") else "int8")
+    b = make_builder(rng, name, "int16" if name in ("known_fc_int16", "known_lrelu16_relu6", "known_lrelu16_reshape", "known_lrelu16_rounding")
+                     else ("uint8" if name == "known_dilation3_uint8" else "int8"))
     if name == "known_fc_int16":
         x = b.input([1, 2, 1, 16], scale=0.0011566292960196733, zp=0)
     elif name == "known_lrelu16_relu6":
@@ -233,7 +234,8 @@ def corpus_net(rng, name):
       x = b.input({"known_pad_conv_reshape": [1, 4, 9, 4], "known_lut_reshape": [1, 3, 9, 8],
                  "known_cascade_stale_row": [1, 10, 8, 8], "known_slice_strided_conv": [1, 6, 6, 4],
                  "known_pad_concat": [1, 1, 3, 16], "known_pad_strided_dw": [1, 10, 9, 4], "known_sconv_unit_output": [1, 2, 18, 4],
-                 "known_sconv_filter_shift": [1, 4, 24, 3]}.get(name, [1, 6, 6, 8]), scale=0.05, zp=3)
+                 "known_sconv_filter_shift": [1, 4, 24, 3], "known_dilation3_uint8": [1, 12, 12, 4]}.get(name, [1, 6, 6, 8]), scale=0.05,
+                zp=120 if name == "known_dilation3_uint8" else 3)
     if name == "known_slice_relu":
         y = b.pool(x, "MAX_POOL_2D", (3, 3), (1, 1), "SAME")
         s = b.strided_slice(y, [0, 1, 2, 0], [1, 5, 6, 8])
@@ -303,6 +305,10 @@ def corpus_net(rng, name):
         b.t(m).shape = list(b.t(x).shape)
         _same_quant(b, m, x)
         z = b.binary("MAXIMUM", x, m)
+    elif name == "known_dilation3_uint8":
+        # dilation 3 is done in software (sparse kernel); uint8 weights have a non-zero zero point
+        z = b.conv(x, 4, (3, 3), (1, 1), (3, 3), "SAME", act=0)
+        b.t(b.net.ops[-1].inputs[1]).zps = [138]
     elif name == "known_sconv_unit_output":
         # first operator, stride (2, 4): the width is folded by 2, then the OFM height 1 makes the padding explicit
         z = b.conv(x, 2, (1, 6), (2, 4), (1, 1), "SAME", act=0)
@@ -364,6 +370,8 @@ def _worker(job):
                    src_inputs=list(net.inputs),
                    src_quant=[(list(t.scales or []), list(t.zps or [])) for t in net.tensors],
                    src_shapes=[list(t.shape) for t in net.tensors],
+                   src_dilations=[max(int((o.opts[1] if o.opts else {}).get("DilationHFactor", 1)), int((o.opts[1] if o.opts else {}).get("DilationWFactor", 1)))
+                                  for o in net.ops],
                    src_strides=[(int((o.opts[1] if o.opts else {}).get("StrideH", 1)), int((o.opts[1] if o.opts else {}).get("StrideW", 1))) for o in net.ops],
                    src_scalars={i: int(np.asarray(t.data).reshape(-1)[0]) for i, t in enumerate(net.tensors)
                                 if t.data is not None and np.asarray(t.data).size == 1},
@@ -447,6 +455,12 @@ def classify_failure(o, ans):
                             return "mul-max-to-abs:quantised-minus-one-not-real-minus-one"
                         if q >= 0 and real > 1:
                             return "mul-max-to-lrelu:real-constant-above-one"
+        # dilation above 2 (sparse kernel built in software) with asymmetric (uint8) weights
+        dils = o.get("src_dilations") or []
+        for n_op, (kind, ins, outs, faf, pad, stride) in enumerate(g):
+            if kind in ("CONV_2D", "DEPTHWISE_CONV_2D") and n_op < len(dils) and dils[n_op] > 2 and len(ins) > 1 and ins[1] < len(quant) \
+                    and any(z != 0 for z in quant[ins[1]][1]):
+                return "software-dilation:inserted-taps-zero-instead-of-weight-zero-point"
         # SAME-padded CONV_2D whose width gets folded into the channels (first operator with a width stride > 1, or any with a width
         # stride > 3): explicit padding from the unfolded width when the OFM height/width is 1, misaligned filter zero columns otherwise
         shapes, strides = o.get("src_shapes") or [], o.get("src_strides") or []
@@ -508,7 +522,7 @@ def main():
                                                               "slice_window", "lut_reshape", "cascade_stale_row", "pad_avgpool_act", "slice_of_slice", "slice_strided_conv", "fc_int16",
                                                               "slice_strided_pool", "pad_concat", "pad_strided_dw", "lrelu16_relu6", "lrelu16_reshape",
                                                               "mulmax_gt1", "mulmax_q0", "mulmax_qm1", "lrelu16_rounding", "pad_hw_and_channel",
-                                                              "sconv_unit_output", "sconv_filter_shift")]
+                                                              "sconv_unit_output", "sconv_filter_shift", "dilation3_uint8")]
     jobs += [(ck.seed, i, PROFILES[i % len(PROFILES)], k_inputs) for i in range(n)]
     ctx = multiprocessing.get_context("fork")
     t0 = time.time()
